@@ -1,0 +1,151 @@
+// Copyright 2021-2023 Buf Technologies, Inc.
+//
+// Licensed under the Apache License, Version 2.0 (the "License");
+// you may not use this file except in compliance with the License.
+// You may obtain a copy of the License at
+//
+//      http://www.apache.org/licenses/LICENSE-2.0
+//
+// Unless required by applicable law or agreed to in writing, software
+// distributed under the License is distributed on an "AS IS" BASIS,
+// WITHOUT WARRANTIES OR CONDITIONS OF ANY KIND, either express or implied.
+// See the License for the specific language governing permissions and
+// limitations under the License.
+
+//go:build verif
+
+// This file holds machine-checked contracts for the code generator. It is
+// comment-only and compiled only with the verif build tag; /verif/bin/govc
+// reads the //@ lines and generates proof obligations from the functions
+// named here.
+
+package main
+
+// ---- descriptors (trusted: google.golang.org/protobuf/reflect/protoreflect) --
+
+// The fully-qualified name of a descriptor ("pkg.Svc", or "Svc" for a file
+// without a package) and its short name, as documented for
+// protoreflect.Descriptor.FullName and .Name.
+//@ spec fullname(d ref) seq
+//@ spec dname(d ref) seq
+//@ spec streamsClient(d ref) bool
+//@ spec streamsServer(d ref) bool
+
+//@ trusted func protoreflect.ServiceDescriptor.FullName(d) res
+//@   pure
+//@   ensures res == fullname(d)
+//@ trusted func protoreflect.MethodDescriptor.FullName(d) res
+//@   pure
+//@   ensures res == fullname(d)
+//@ trusted func protoreflect.MethodDescriptor.Name(d) res
+//@   pure
+//@   ensures res == dname(d)
+//@ trusted func protoreflect.MethodDescriptor.IsStreamingClient(d) res
+//@   pure
+//@   ensures res == streamsClient(d)
+//@ trusted func protoreflect.MethodDescriptor.IsStreamingServer(d) res
+//@   pure
+//@   ensures res == streamsServer(d)
+
+// The canonical procedure path of a method: '/<fully-qualified service>/<method>'.
+//@ macro canonicalPath(m ref) seq = "/" ++ fullname(m.Parent.Desc) ++ "/" ++ dname(m.Desc)
+
+// ---- C17: names -------------------------------------------------------------
+
+//@ func procedureName(method) res
+//@   tags C17
+//@   requires method != nil && method.Desc != nil && method.Parent != nil && method.Parent.Desc != nil
+//@   ensures res == canonicalPath(method) // label: canonical_procedure_path
+//@   assigns nothing
+
+//@ func reflectionName(service) res
+//@   tags C17
+//@   requires service != nil && service.Desc != nil
+//@   ensures res == fullname(service.Desc) // label: fully_qualified_service
+//@   assigns nothing
+
+// go/token.IsKeyword reports whether name is one of the 25 Go keywords; all
+// of them consist of lower-case ASCII letters only (Go specification,
+// "Keywords").
+//@ spec isGoKeyword(s seq) bool
+//@ axiom keywords_are_lowercase_words: forall s seq :: {isGoKeyword(s)} isGoKeyword(s) ==> |s| >= 2 && 'a' <= s[0] && s[0] <= 'z'
+//@ trusted func token.IsKeyword(name) res
+//@   pure
+//@   ensures res == isGoKeyword(name)
+
+// strings.ToLower of a single byte: identity unless an upper-case ASCII
+// letter (the plugin's names are Go identifiers derived from proto
+// identifiers, which are ASCII); the result has the same length.
+//@ trusted func strings.ToLower(s) res
+//@   pure
+//@   ensures |s| == 1 && s[0] < 128 ==> |res| == 1
+//@   ensures |s| == 1 && 'A' <= s[0] && s[0] <= 'Z' ==> res[0] == s[0] + 32
+//@   ensures |s| == 1 && s[0] < 128 && !('A' <= s[0] && s[0] <= 'Z') ==> res[0] == s[0]
+
+//@ func unexport(s) res
+//@   tags C17
+//@   requires |s| >= 1 && s[0] < 128
+//@   ensures !isGoKeyword(res) // label: field_name_is_not_a_keyword
+//@   ensures (|res| == |s| && res[1:] == s[1:]) || (|res| == |s| + 1 && res[0] == '_' && res[2:] == s[1:]) // label: rest_of_name_kept
+//@   assigns nothing
+
+// ---- C17: constructor choice and path data flow -----------------------------
+//
+// The generated text is produced by calls g.P(pieces...). The obligations
+// below are attached to every such call (and to every connectPackage.Ident
+// call) in the function and are keyed on the literal pieces, not on call
+// ordinals, so that a restructuring which keeps the emitted text keeps the
+// proof: whenever a piece announces a route, a Spec label, a client target
+// or the mount prefix, the piece that follows is the canonical path of the
+// method the loop is at, and whenever a streaming constructor or call is
+// named, the method has that streaming kind.
+
+//@ trusted func (protogen.GoImportPath).Ident(p, name) res
+//@   pure
+//@   ensures res.GoName == name && res.GoImportPath == p
+//@ trusted func (*protogen.GeneratedFile).P(g, v)
+//@   assigns nothing
+
+// Helpers that only write to the generated file's buffer (g.P) and read
+// descriptor options; trusted to leave the descriptors alone.
+//@ trusted func wrapComments(g, elems)
+//@   assigns nothing
+//@ trusted func isDeprecatedService(service) res
+//@   assigns nothing
+//@ trusted func isDeprecatedMethod(method) res
+//@   assigns nothing
+//@ trusted func clientSignature(g, method, named) res
+//@   assigns nothing
+//@ func deprecated(g)
+//@   tags C17
+//@   assigns nothing
+
+//@ macro methodsOK(service ref) bool = service != nil && service.Desc != nil && (forall i int :: {service.Methods[i]} 0 <= i && i < len(service.Methods) ==> service.Methods[i] != nil && service.Methods[i].Parent == service && service.Methods[i].Desc != nil && service.Methods[i].Input != nil && service.Methods[i].Output != nil && len(service.Methods[i].GoName) >= 1 && service.Methods[i].GoName[0] < 128)
+
+//@ func generateServerConstructor(g, service, names)
+//@   tags C17
+//@   requires g != nil && methodsOK(service)
+//@   assigns nothing
+//@   assert@call((protogen.GoImportPath).Ident): islit(arg1, "NewClientStreamHandler") ==> streamsClient(method.Desc) && !streamsServer(method.Desc) // label: client_stream_constructor
+//@   assert@call((protogen.GoImportPath).Ident): islit(arg1, "NewServerStreamHandler") ==> !streamsClient(method.Desc) && streamsServer(method.Desc) // label: server_stream_constructor
+//@   assert@call((protogen.GoImportPath).Ident): islit(arg1, "NewBidiStreamHandler") ==> streamsClient(method.Desc) && streamsServer(method.Desc) // label: bidi_stream_constructor
+//@   assert@call((protogen.GoImportPath).Ident): islit(arg1, "NewUnaryHandler") ==> !streamsClient(method.Desc) && !streamsServer(method.Desc) // label: unary_constructor
+//@   assert@call((*protogen.GeneratedFile).P): vprefix(arg1, 0, "mux.Handle(") ==> vlit(arg1, 0, "mux.Handle(\"") && vstr(arg1, 1) == canonicalPath(method) && vlit(arg1, 2, "\", ") // label: route_is_canonical_path
+//@   assert@call((*protogen.GeneratedFile).P): vprefix(arg1, 0, "\"") ==> vlit(arg1, 0, "\"") && vstr(arg1, 1) == canonicalPath(method) && vlit(arg1, 2, "\",") && vcount(arg1) == 3 // label: spec_label_is_canonical_path
+//@   assert@call((*protogen.GeneratedFile).P): vprefix(arg1, 0, "return ") ==> vlit(arg1, 0, "return \"/") && vstr(arg1, 1) == fullname(service.Desc) && vlit(arg1, 2, "/\", mux") && vcount(arg1) == 3 // label: mount_prefix
+
+//@ func generateClientImplementation(g, service, names)
+//@   tags C17
+//@   requires g != nil && methodsOK(service)
+//@   assigns nothing
+//@   assert@call((*protogen.GeneratedFile).P): vprefix(arg1, 0, "baseURL +") ==> vlit(arg1, 0, "baseURL + \"") && vstr(arg1, 1) == canonicalPath(method) && vlit(arg1, 2, "\",") && vcount(arg1) == 3 // label: client_target_is_canonical_path
+
+//@ func generateClientMethod(g, service, method, names)
+//@   tags C17
+//@   requires g != nil && service != nil && method != nil && method.Desc != nil && len(method.GoName) >= 1 && method.GoName[0] < 128
+//@   assigns nothing
+//@   assert@call((*protogen.GeneratedFile).P): vlit(arg1, 2, ".CallClientStream(ctx)") ==> streamsClient(method.Desc) && !streamsServer(method.Desc) // label: client_stream_call
+//@   assert@call((*protogen.GeneratedFile).P): vlit(arg1, 2, ".CallServerStream(ctx, req)") ==> !streamsClient(method.Desc) && streamsServer(method.Desc) // label: server_stream_call
+//@   assert@call((*protogen.GeneratedFile).P): vlit(arg1, 2, ".CallBidiStream(ctx)") ==> streamsClient(method.Desc) && streamsServer(method.Desc) // label: bidi_stream_call
+//@   assert@call((*protogen.GeneratedFile).P): vlit(arg1, 2, ".CallUnary(ctx, req)") ==> !streamsClient(method.Desc) && !streamsServer(method.Desc) // label: unary_call
+//@   assert@call((*protogen.GeneratedFile).P): vprefix(arg1, 0, "return c.") ==> vlit(arg1, 2, ".CallClientStream(ctx)") || vlit(arg1, 2, ".CallServerStream(ctx, req)") || vlit(arg1, 2, ".CallBidiStream(ctx)") || vlit(arg1, 2, ".CallUnary(ctx, req)") // label: call_is_one_of_the_four
